@@ -352,6 +352,12 @@ class CallMixin:
     def container_method(self, obj, name, args, kwargs):
         if isinstance(obj.typ, ty.TList):
             if name == 'append':
+                cap = self._acc_capture
+                if cap is not None:
+                    accv = self.lookup(cap[0])
+                    if isinstance(accv, VRef) and accv.term.eq(obj.term):
+                        cap[1].append(args[0])
+                        return VNone()
                 self.list_append(obj, args[0])
                 return VNone()
             if name == 'insert':
